@@ -1,6 +1,7 @@
 #!/bin/bash
 # usage: tools/try_seed.sh <patch.diff> <PROP>...   — applies a seeded change to /repo, runs the quick checks, reverts
 patch="$1"; shift
+mkdir -p /verif/target/seedrun; cp /verif/known_findings.json /verif/target/seedrun/; rm -rf /verif/target/seedrun/replays
 cd /repo || exit 2
 if ! git diff --quiet; then echo "/repo has uncommitted changes"; exit 2; fi
 git apply "$patch" || { echo "patch does not apply"; exit 2; }
